@@ -30,7 +30,7 @@ func (fv *FuncVerifier) constTerm(val constant.Value, t types.Type) (Term, bool)
 		if b, ok := t.Underlying().(*types.Basic); ok && b.Info()&types.IsFloat != 0 {
 			return fv.floatConst(val.ExactString()), true
 		}
-		if _, isTP := t.(*types.TypeParam); isTP {
+		if tp, isTP := t.(*types.TypeParam); isTP && fv.ownTypeParam(tp) {
 			// an integer literal of a type parameter's type: the parameter is an uninterpreted
 			// sort, the literal its image under an uninterpreted embedding of the integers
 			if srt := fv.sortOf(t); srt != nil && srt.Name != "Int" && srt.Kind != KBV {
@@ -53,6 +53,26 @@ func (fv *FuncVerifier) constTerm(val constant.Value, t types.Type) (Term, bool)
 		return fv.floatConst(val.ExactString()), true
 	}
 	return Term{}, false
+}
+
+// ownTypeParam: tp is a type parameter of the function under verification itself (a literal
+// handed to a generic callee is typed by the callee's parameter and keeps its integer sort).
+func (fv *FuncVerifier) ownTypeParam(tp *types.TypeParam) bool {
+	if fv.fd == nil || fv.fd.fn == nil {
+		return false
+	}
+	sig, ok := fv.fd.fn.Type().(*types.Signature)
+	if !ok {
+		return false
+	}
+	for _, l := range []*types.TypeParamList{sig.TypeParams(), sig.RecvTypeParams()} {
+		for i := 0; l != nil && i < l.Len(); i++ {
+			if l.At(i) == tp {
+				return true
+			}
+		}
+	}
+	return false
 }
 
 func (fv *FuncVerifier) floatConst(lit string) Term {
